@@ -316,12 +316,13 @@ pub fn observe(case: &Value) -> Value {
         }
         acc["fmt"] = guard(|| json!({"display": format!("{}", msg).len(), "debug": format!("{:?}", msg).len()}));
         o["acc"] = acc;
-        if let Some(l) = case["cutlist"].as_array() {
-            o["cutlist"] = json!(l.iter().map(|n| { let n = (n.as_u64().unwrap_or(0) as usize).min(b.len()); json!({"n": n, "parse": parse_json(&b[..n]), "hdr": header_json(&b[..n])}) }).collect::<Vec<_>>());
-        }
-        if case["cuts"].as_bool() == Some(true) {
-            o["cuts"] = json!((0..b.len()).map(|n| json!({"parse": parse_json(&b[..n]), "hdr": header_json(&b[..n])})).collect::<Vec<_>>());
-        }
+    }
+    // prefixes do not depend on the whole buffer having been accepted
+    if let Some(l) = case["cutlist"].as_array() {
+        o["cutlist"] = json!(l.iter().map(|n| { let n = (n.as_u64().unwrap_or(0) as usize).min(b.len()); json!({"n": n, "parse": parse_json(&b[..n]), "hdr": header_json(&b[..n])}) }).collect::<Vec<_>>());
+    }
+    if case["cuts"].as_bool() == Some(true) {
+        o["cuts"] = json!((0..b.len()).map(|n| json!({"parse": parse_json(&b[..n]), "hdr": header_json(&b[..n])})).collect::<Vec<_>>());
     }
     o
 }
